@@ -288,3 +288,30 @@ Definition dup_obj : xobj :=
      c_props := Some [(wp, ([], 0)); (wp, ([[97]%N], 0))]; c_props_owner := 0; c_atts := None; c_atts_owner := 0 |}.
 Lemma copy_needs_distinct_names : view_props dup_obj wp = [] /\ view_props (copy_obj CopyFixed dup_obj 1) wp = [[97]%N].
 Proof. vm_compute. split; reflexivity. Qed.
+
+(* a copy refines the dictionary-of-sets state its original refines, so every later history of mutations of the copy
+   behaves as the model run from the ORIGINAL's state (interchangeability extends over copies) *)
+Lemma copy_R o s n : wf o -> coherent o -> R o s -> R (copy_obj CopyFixed o n) s.
+Proof.
+  intros W HC (R1 & R2 & R3 & R4 & R5 & R6).
+  destruct (copy_same_content o n W HC) as (S1 & S2 & S3 & S4 & S5 & S6 & _).
+  split; [intro p; rewrite S1; apply R1|]. split; [intro a; rewrite S2; apply R2|].
+  split; [congruence|]. split; [congruence|]. split; congruence.
+Qed.
+
+Lemma copy_then_mutations o s n ops : wf o -> coherent o -> R o s ->
+  let c := copy_obj CopyFixed o n in
+  snd (orun n c ops) = snd (srun s ops) /\ R (fst (orun n c ops)) (fst (srun s ops)) /\ coherent (fst (orun n c ops)).
+Proof.
+  intros W HC HR c. destruct (copy_fixed_inv o n) as [CO CC].
+  destruct (orun_refines n ops c s CO CC (copy_R o s n W HC HR)) as (A & B & C & _).
+  split; [exact A|]. split; [exact B | exact C].
+Qed.
+
+(* mutations keep wf along a whole history on one object *)
+Lemma orun_wf i : forall ops o, wf o -> wf (fst (orun i o ops)).
+Proof.
+  induction ops as [|e r IH]; intros o W; cbn [orun]; [exact W|].
+  pose proof (ostep_wf i o e W) as W1. destruct (ostep i o e) as [o1 ok]. cbn [fst] in W1.
+  specialize (IH o1 W1). destruct (orun i o1 r) as [o2 fl]. exact IH.
+Qed.
